@@ -352,6 +352,24 @@ func (p *provider) updateStatus(
 	usageIncrement int,
 	msg string,
 ) {
+	// if the update is rejected because a newer version of the resource exists, it is
+	// repeated with that version. This is done in a loop and not recursively, as otherwise
+	// the stack grows for as long as the API server keeps answering with a conflict
+	for rs != nil {
+		rs = p.tryUpdateStatus(ctx, rs, status, reason, matchIncrement, usageIncrement, msg)
+	}
+}
+
+// tryUpdateStatus returns the newer version of the rule set if the update has to be repeated.
+func (p *provider) tryUpdateStatus(
+	ctx context.Context,
+	rs *v1alpha4.RuleSet,
+	status metav1.ConditionStatus,
+	reason v1alpha4.ConditionReason,
+	matchIncrement int,
+	usageIncrement int,
+	msg string,
+) *v1alpha4.RuleSet {
 	modRS := rs.DeepCopy()
 	repository := p.cl.RuleSetRepository(modRS.Namespace)
 
@@ -389,14 +407,14 @@ func (p *provider) updateStatus(
 	if err == nil {
 		p.l.Debug().Msgf("RuleSet status updated")
 
-		return
+		return nil
 	}
 
 	var statusErr *errors2.StatusError
 	if !errors.As(err, &statusErr) {
 		p.l.Warn().Err(err).Msg("Failed updating RuleSet status")
 
-		return
+		return nil
 	}
 
 	switch statusErr.ErrStatus.Code {
@@ -404,7 +422,7 @@ func (p *provider) updateStatus(
 		// resource gone. Nothing can be done
 		p.l.Debug().Msgf("RuleSet gone")
 
-		return
+		return nil
 	case http.StatusConflict, http.StatusUnprocessableEntity:
 		p.l.Debug().Err(err).Msgf("New resource version available. Retrieving it.")
 
@@ -415,11 +433,13 @@ func (p *provider) updateStatus(
 		if rs, err = repository.Get(ctx, rsKey, metav1.GetOptions{}); err != nil {
 			p.l.Warn().Err(err).Msgf("Failed retrieving new RuleSet version for status update")
 		} else {
-			p.updateStatus(ctx, rs, status, reason, matchIncrement, usageIncrement, msg)
+			return rs
 		}
 	default:
 		p.l.Warn().Err(err).Msgf("Failed updating RuleSet status")
 	}
+
+	return nil
 }
 
 func (p *provider) finalize(ctx context.Context) {
